@@ -20,6 +20,11 @@ From SF Require Gather.Model Gather.Proofs Comb.Model Comb.Proofs Comb.Flat Comb
 Import ListNotations.
 Local Open Scope string_scope. Local Open Scope list_scope.
 
+(* NOTE (audit C29-4): C29_merge_nested, C29_merge_nested_single_scalar and the three C29_pick_* theorems are
+   one-unfolding facts about the operator models (a case split / a filter-map commutation): their content is that the
+   MODEL of the operator is literally the specification's function on values; what ties the model to the Python
+   operator is only the operator correspondence. The theorems with real proof content are C29_merge_flattened_partial,
+   C29_link_partial, C29_flat_is_flatten_nested, C29_empty_scatter* and the three C29_scatter_network_* theorems. *)
 (* ---- linkMerge: merge_nested ------------------------------------------------------------------- *)
 (* any number of sources other than one: the ListToken built by the combinator is the list of sources *)
 Theorem C29_merge_nested : forall inputs,
@@ -40,19 +45,35 @@ Proof. exists "0", [Tok "0" (VInt 1)]. vm_compute. discriminate. Qed.
 
 (* ---- linkMerge: merge_flattened ---------------------------------------------------------------- *)
 (* sources of type T or T[] (T not an array), every token list in tag-key order (what GatherStep and
-   build_token produce, except after a multi-input flat_crossproduct: see _order_refuted) *)
+   build_token produce, except after a multi-input flat_crossproduct: see _order_refuted; the top-level tokens are
+   re-tagged with their common tag by the dot product, [merge_outputs], so only the inner lists matter), every tag that
+   _flatten_token_list parses NUMERIC in its last component (otherwise the Python function raises ValueError:
+   next theorem).  Conclusion on the faithful, partial operator: it does not raise and its value is the spec's. *)
 Theorem C29_merge_flattened_partial : forall inputs,
-  forallb shallow_tok inputs = true ->
-  keys_sorted inputs = true -> forallb inner_sorted inputs = true ->
-  tok_value (sf_list_merge true inputs) = merge_flattened (map tok_value inputs).
-Proof. exact merge_flattened_shallow. Qed.
+  numeric_forest (merge_outputs inputs) = true ->
+  forallb shallow_tok inputs = true -> forallb inner_sorted inputs = true ->
+  exists out, sf_list_merge_opt true inputs = Some out /\
+              tok_value out = merge_flattened (map tok_value inputs).
+Proof. exact merge_flattened_shallow_opt. Qed.
 
 Example C29_merge_flattened_hyps :
   let inputs := [Tok "0" (VInt 7); LTok "0" [Tok "0.0" (VInt 1); Tok "0.1" VNull; Tok "0.10" (VInt 3)];
                  LTok "0" []] in
-  forallb shallow_tok inputs = true /\ keys_sorted inputs = true /\ forallb inner_sorted inputs = true /\
-  tok_value (sf_list_merge true inputs) = VArr [VInt 7; VInt 1; VNull; VInt 3].
+  numeric_forest (merge_outputs inputs) = true /\
+  forallb shallow_tok inputs = true /\ forallb inner_sorted inputs = true /\
+  option_map tok_value (sf_list_merge_opt true inputs) = Some (VArr [VInt 7; VInt 1; VNull; VInt 3]).
 Proof. vm_compute. auto. Qed.
+
+(* outside that domain the operator raises: the tag '' (it occurs: a token of a non-replicated inner step of a
+   scattered subworkflow reaching a chained gather), "x", "0.y" *)
+Theorem C29_merge_flattened_nonnumeric_raises :
+  sf_list_merge_opt true [LTok "0" [Tok "" (VInt 1); Tok "0.0" (VInt 2)]] = None /\
+  sf_list_merge_opt true [LTok "0" [Tok "x" (VInt 1)]] = None /\
+  sf_list_merge_opt true [Tok "0.y" (VInt 1); Tok "0.y" (VInt 2)] = None /\
+  (* a malformed TOP-LEVEL tag shorter than two characters is replaced by the common tag before sorting *)
+  sf_list_merge_opt true [Tok "" (VInt 1); Tok "0" (VInt 2)] <> None /\
+  sf_list_merge_opt false [LTok "0" [Tok "x" (VInt 1)]] <> None.
+Proof. vm_compute. repeat split; discriminate. Qed.
 
 (* _flatten_token_list splices every level; the spec splices one: arrays of arrays are over-flattened *)
 Theorem C29_merge_flattened_deep_refuted : exists inputs,
@@ -293,6 +314,7 @@ Print Assumptions C29_merge_nested.
 Print Assumptions C29_merge_nested_single_scalar.
 Print Assumptions C29_merge_nested_single_list_refuted.
 Print Assumptions C29_merge_flattened_partial.
+Print Assumptions C29_merge_flattened_nonnumeric_raises.
 Print Assumptions C29_merge_flattened_deep_refuted.
 Print Assumptions C29_merge_flattened_order_refuted.
 Print Assumptions C29_pick_first_non_null.
